@@ -41,6 +41,7 @@ CONFIGS_THOROUGH = CONFIGS_QUICK + [
     ("pack-0.92->bzr://pack-0.92", "pack-0.92", "pack-0.92", "tgt"),
 ]
 OPS = ("fetch", "push", "pull")
+WITNESSES = ("WitnessPartialOverlap", "WitnessGhostAncestor", "WitnessCarriedText")
 
 
 def gen_cfg(maxrev, nghosts, maxpar=2, inv=("LawsHoldOnSpec",)):
@@ -274,9 +275,12 @@ def run(ctx):
     else:
         tlc.check(ctx, "FetchMC", cfg_text=mc_cfg(4, 1, 4), label="MC graphs<=4, 1 ghost, all patterns", timeout=3000)
         tlc.check(ctx, "FetchMC", cfg_text=mc_cfg(5, 0, 3), label="MC graphs<=5, no ghost", timeout=3000)
-    for w in ("WitnessPartialOverlap", "WitnessGhostAncestor", "WitnessCarriedText"):
-        tlc.check(ctx, "FetchMC", cfg_text=mc_cfg(3, 1, 3, inv=(w,), props=()), expect_violation=w, label="witness " + w,
-                  workers=4)
+    # anti-vacuity: one run that keeps going after each violated witness
+    res = tlc.run(ctx, "FetchMC", cfg_text=mc_cfg(3, 1, 3, inv=WITNESSES, props=()), allow_violation=True, extra=("-continue",), workers=4, timeout=1500)
+    ctx.add_tlc(res, "witnesses")
+    for w in WITNESSES:
+        if "Invariant %s is violated" % w not in res["output"]:
+            ctx.machinery("vacuity guard: witness %s was not reached" % w)
     # ---- E2: cases exported by TLC for a seeded sample of the universe
     maxrev, nhist, per_hist = (4, 40, 5) if ctx.quick else (5, 400, 8)
     total = fc.count_universe(maxrev, 2, 1)
